@@ -25,6 +25,8 @@ var universeC07 = []string{
 	"null", "true", "false", "0", "-0", "1", "-1", "1.5", "1e15", `""`, `"a"`, `"0"`, `"false"`, `"null"`,
 	"[]", "[0]", "[[]]", "[null]", "[1,2]", "{}", `{"a":null}`, `{"a":1}`, `{"a":[]}`, `{"a":{"b":1}}`,
 	`{"b":null}`, `{"b":false}`, `{"a":null,"b":1}`, `{"a":1,"b":null}`, `[2,1]`, `[{"a":null}]`, `[{"b":null}]`, `[1,[2]]`, `[1,[2,null]]`, `"1"`, `{"a":{"c":1}}`, `{"a":{"b":null}}`,
+	// representation: strings that start with a replacement character, DEL or an astral character; numbers in exponent form and beyond 2^53
+	`"\ufffd"`, `"\ufffdabc"`, `"\u007f"`, `"𝄞"`, "1e21", "1e-7", "9007199254740993", "0.30000000000000004",
 }
 
 var binOpsC07 = []string{"||", "&&", "==", "!=", "<", "<=", ">", ">="}
@@ -590,8 +592,8 @@ func TestC10Random(t *testing.T) {
 }
 
 // typed universe for C09
-var c09Numbers = []string{"0", "-0", "1", "-1", "1.5", "-1.5", "2.5", "1e15", "-7", "1e19", "-1e19", "9223372036854775808", "1e21", "1e300", "9007199254740993", "0.1", "1e-7", "123456789.125", "-2.5"}
-var c09Strings = []string{`""`, `"a"`, `"b"`, `"ab"`, `"é"`, `"𝒳y"`, `"10"`, `"1e2"`, `"-0"`, `" 1"`, `"inf"`, `"nan"`, `"Infinity"`, `"0x1p4"`, `"1_0"`, `"é"`, `"aé𝒳"`, `"1.0"`, `"-1.5e-3"`, `"1e999"`, `"+1"`, `".5"`}
+var c09Numbers = []string{"1e21", "1e-7", "5e-324", "0.23333333333333334", "1.7976931348623157e308", "-1e308", "6.02214076e23", "1e20", "123456789012345680000", "1.2345678901234568e-10", "0", "-0", "1", "-1", "1.5", "-1.5", "2.5", "1e15", "-7", "1e19", "-1e19", "9223372036854775808", "1e21", "1e300", "9007199254740993", "0.1", "1e-7", "123456789.125", "-2.5"}
+var c09Strings = []string{`"9223372036854775807"`, `"9223372036854775808"`, `"9999999999999999999"`, `"18446744073709551616"`, `"0.23333333333333334"`, `"\ufffdabc"`, `"\u007f"`, `"𝄞"`, `"a\u0301"`, `"ǆ"`, `"a𝄞"`, `"𝄞𝄞𝄞"`, `""`, `"a"`, `"b"`, `"ab"`, `"é"`, `"𝒳y"`, `"10"`, `"1e2"`, `"-0"`, `" 1"`, `"inf"`, `"nan"`, `"Infinity"`, `"0x1p4"`, `"1_0"`, `"é"`, `"aé𝒳"`, `"1.0"`, `"-1.5e-3"`, `"1e999"`, `"+1"`, `".5"`}
 var c09NumArrays = []string{"[]", "[1]", "[3,1,2]", "[1,1,1]", "[2,-1,2,0.5]", "[1e15,-1e15,1]", "[0,-0]"}
 var c09StrArrays = []string{"[]", `["a"]`, `["b","a","c"]`, `["a","a"]`, `["é","e","z","𝒳","Z"]`, `["","a",""]`, `["ab","a","abc"]`}
 var c09ObjArrays = []string{
@@ -747,11 +749,30 @@ var numberishRunes = []rune("0123456789+-.eExXpP_infINFatyNn ")
 
 // TestC09ToNumber: strings built from number-ish characters.
 func TestC09ToNumber(t *testing.T) {
-	for _, s := range []string{"inf", "+inf", "-inf", "Inf", "INF", "infinity", "-Infinity", "nan", "NaN", "+nan", "1e309", "-1e309", "1e-400", "0x1p1024", "0X1P-2", "1_000", "١٢", "１２", " 12", "12 ", "1e", "e1", "--1", "", "0", "-0", "1.5", "1E2"} {
+	for _, s := range []string{"inf", "+inf", "-inf", "Inf", "INF", "infinity", "-Infinity", "nan", "NaN", "+nan", "1e309", "-1e309", "1e-400", "0x1p1024", "0X1P-2", "1_000", "١٢", "１２", " 12", "12 ", "1e", "e1", "--1", "", "0", "-0", "1.5", "1E2",
+		"9223372036854775807", "9223372036854775808", "9999999999999999999", "-9223372036854775808", "-9223372036854775809", "18446744073709551615", "18446744073709551616", "9007199254740993", "0.23333333333333334", "1.4000000000000001",
+		"123456789012345678", "1234567890123456789", "12345678901234567890", "123456789012345678901", "99999999999999999999999", "0.000000000000000000000000000001", "1.7976931348623157e308", "1.7976931348623159e308", "4.9e-324", "2e-324", "1e-400", "-1e-400", "00", "01", "1.", ".5", "-.5", "+1", "1e+2", "1E-2", "0e0", "-0e0", "0.0", "-0.0"} {
 		run(t, Case{Property: "C09", Kind: "tonumber", Extra: map[string]interface{}{"s": s}})
 	}
 	rapid.Check(t, func(t *rapid.T) {
 		s := rapid.StringOfN(rapid.RuneFrom(numberishRunes), 0, 12, -1).Draw(t, "s")
+		if uni(t, 3, "structured") == 0 {
+			// a well-formed number of any length: 1..25 integer digits (2^53, 2^63, 2^64 lie at 16..20), optional fraction and exponent
+			digits := func(n int, label string) string {
+				var sb strings.Builder
+				for i := 0; i < n; i++ {
+					sb.WriteByte("0123456789"[uni(t, 10, label)])
+				}
+				return sb.String()
+			}
+			s = []string{"", "-", "", ""}[uni(t, 4, "sign")] + []string{"", "9", "1", "92233720368547758", "1844674407370955161", "900719925474099"}[uni(t, 6, "prefix")] + digits(1+uni(t, 8, "intLen"), "d")
+			if uni(t, 3, "frac") == 0 {
+				s += "." + digits(1+uni(t, 20, "fracLen"), "f")
+			}
+			if uni(t, 4, "exp") == 0 {
+				s += []string{"e", "E", "e+", "e-", "E-"}[uni(t, 5, "e")] + digits(1+uni(t, 3, "expLen"), "x")
+			}
+		}
 		run(t, Case{Property: "C09", Kind: "tonumber", Extra: map[string]interface{}{"s": s}})
 	})
 }
@@ -1091,7 +1112,6 @@ func TestC08Pairs(t *testing.T) {
 		run(t, Case{Property: "C08", Kind: "diff", Expr: e, Doc: ref.Canon(doc), Extra: map[string]interface{}{"cell": "pairs"}})
 	})
 }
-
 
 // TestC10LargeKeys: by-expression functions on arrays of 22..61 elements with exactly
 // one invalid (or erroring) key at every position, for several key orderings: the
